@@ -19,7 +19,7 @@ KindOf(proto, p) == IF Rtp(proto) THEN CASE p.ch = 0 -> "ch0" [] p.ch = 1 -> "ch
                     ELSE IF p.ch = 0 THEN "video" ELSE "audio"
 HashOf(proto, p) == IF Rtp(proto) THEN p.rtphash ELSE p.mediahash
 Late(e) == Len(e.c) > 5 /\ SubSeq(e.c, Len(e.c) - 4, Len(e.c)) = "-late"
-Leaver(e) == e.c = "tcp"      \* the client that leaves in mid stream: only what it did receive is judged
+Leaver(e) == e.c \in {"tcp", "wsp-drop"}      \* the clients that leave in mid stream (one politely, one cut off): only what they did receive is judged
 Next ==
   /\ l < Len(Trace) /\ l' = l + 1
   /\ LET e == Trace[l'] IN
